@@ -268,11 +268,21 @@ def _reaches_return(H, start, avoid):
     return bool_flow(H, start, 0, {}, avoid=avoid)["ret"]
 
 
-def check_inputs_consumed(res, P, W, era, has_collateral):
+def check_inputs_consumed(res, P, W, era, has_collateral, CF=()):
     """Clause (2) for one witness-rule function (helpers of the crate that gather the inputs are looked into)."""
     wkey = "%s:%s" % (era, W.path.split("phase1::")[-1])
     hosts = [W] + [g for g in {id(g): g for g in (P.fns.get(t.get("f") or "") for _, t in W.calls())
                                if g is not None and g.crate == W.crate and g.kind != "Closure" and "ValidationError" not in g.local_ty(0)}.values()]
+    # the rule may handle ONE input and be driven by its caller(s): they are hosts too
+    frontier = [W]
+    for _ in range(2):
+        nxt = []
+        for X in frontier:
+            for G in CF:
+                if G is not X and G not in hosts and any((t.get("f") or "") == X.b.get("path", X.path) for _, t in G.calls()):
+                    hosts.append(G)
+                    nxt.append(G)
+        frontier = nxt
     for field, needed in (("inputs", True), ("collateral", has_collateral)):
         if not needed:
             continue
